@@ -41,6 +41,7 @@ type keyDesc struct {
 	dir    string // asc | desc
 	xf     string // id | abs
 	goText string
+	path   string // Go path of the projection below the element, e.g. "Src.Info.Name", "Sprint(Info)"
 }
 
 // side expression after normalisation
@@ -66,6 +67,25 @@ type cmpCtx struct {
 	keyRef  func(ast.Expr) (side int, ok bool)
 	keyDefs map[string]*sideExpr
 	keyType string
+	// set in a comparator inlined for a SUB-element (compareNodes(el[i].Src, el[j].Src)): the path of
+	// that sub-element below the outer element
+	prefix string
+	// struct types of the file (field lists), to check that a whole-struct guard is decided by the keys
+	structs map[string][]string
+}
+
+// prefixed puts the sub-element prefix in front of a path: Info.Name -> Src.Info.Name,
+// Sprint(Info) -> Sprint(Src.Info).
+func (c *cmpCtx) prefixed(p string) string { return prefixPath(c.prefix, p) }
+
+func prefixPath(prefix, p string) string {
+	if prefix == "" {
+		return p
+	}
+	if strings.HasPrefix(p, "Sprint(") {
+		return "Sprint(" + prefix + "." + p[len("Sprint("):]
+	}
+	return prefix + "." + p
 }
 
 func (c *cmpCtx) errf(n ast.Node, format string, a ...any) error {
@@ -296,6 +316,7 @@ func (c *cmpCtx) orderKey(e ast.Expr) (*keyDesc, *sideExpr, error) {
 		return nil, nil, c.errf(e, "%v", err)
 	}
 	k.proj = p
+	k.path = c.prefixed(a.path)
 	return k, a, nil
 }
 
@@ -443,6 +464,20 @@ func (c *cmpCtx) block(stmts []ast.Stmt, vs []variant, top bool) ([]variant, err
 			if !ok || len(ret.Results) != 1 {
 				return nil, c.errf(st, "guarded block must contain exactly one return")
 			}
+			if ks, isCall, err := c.structGuard(st, ga, ret.Results[0]); isCall {
+				if err != nil {
+					return nil, err
+				}
+				for i := range vs {
+					if !vs[i].done {
+						vs[i].keys = append(vs[i].keys, ks...)
+					}
+				}
+				for _, n := range added {
+					delete(c.locals, n)
+				}
+				break
+			}
 			k, oa, err := c.orderKey(ret.Results[0])
 			if err != nil {
 				return nil, err
@@ -501,56 +536,66 @@ func firstLine(s string) string {
 	return s
 }
 
+// inlineCall inlines `other(X, Y)` where X and Y are the two elements themselves or the same
+// sub-element of each (el[i].Src, el[j].Src).  It returns the keys of `other` (paths prefixed) and the
+// path of the sub-element ("" for the elements themselves).  ok=false: e is not such a call.
+func (c *cmpCtx) inlineCall(e ast.Expr) (keys []keyDesc, sub string, ok bool, err error) {
+	call, isCall := e.(*ast.CallExpr)
+	if !isCall {
+		return nil, "", false, nil
+	}
+	id, isId := call.Fun.(*ast.Ident)
+	if !isId || id.Name == "abs64" {
+		return nil, "", false, nil
+	}
+	fd, known := c.funcs[id.Name]
+	if !known || len(call.Args) != 2 {
+		return nil, "", true, c.errf(e, "call to unknown comparator %s", id.Name)
+	}
+	if c.depth > 3 {
+		return nil, "", true, c.errf(e, "comparator inlining too deep")
+	}
+	a0, err := c.sideOf(call.Args[0])
+	if err != nil {
+		return nil, "", true, err
+	}
+	a1, err := c.sideOf(call.Args[1])
+	if err != nil {
+		return nil, "", true, err
+	}
+	if a0.path != a1.path || a0.abs || a1.abs || a0.key || a1.key || a0.side == a1.side {
+		return nil, "", true, c.errf(e, "comparator call must pass the two elements, or the same sub-element of each")
+	}
+	names := paramNames(fd.Type)
+	if len(names) != 2 || fd.Body == nil {
+		return nil, "", true, c.errf(e, "comparator %s must take two parameters", id.Name)
+	}
+	an, bn := names[0], names[1]
+	if a0.side == 1 { // other(B, A): parameters swap roles
+		an, bn = bn, an
+	}
+	pre := c.prefixed(a0.path)
+	outer := c.projOf
+	subc := &cmpCtx{fset: c.fset, file: c.file, locals: map[string]*sideExpr{}, funcs: c.funcs, depth: c.depth + 1, prefix: pre, structs: c.structs,
+		projOf: func(p string) (string, error) { return outer(prefixPath(a0.path, p)) },
+		isA:    func(x ast.Expr) bool { i, ok := x.(*ast.Ident); return ok && i.Name == an },
+		isB:    func(x ast.Expr) bool { i, ok := x.(*ast.Ident); return ok && i.Name == bn }}
+	vs, err := subc.block(fd.Body.List, []variant{{}}, true)
+	if err != nil {
+		return nil, "", true, err
+	}
+	if len(vs) != 1 || !vs[0].done {
+		return nil, "", true, c.errf(e, "inlined comparator %s has configuration variants or no final return", id.Name)
+	}
+	return vs[0].keys, a0.path, true, nil
+}
+
 func (c *cmpCtx) finalReturn(e ast.Expr) ([]keyDesc, error) {
 	if id, ok := e.(*ast.Ident); ok && id.Name == "false" {
 		return nil, nil
 	}
-	if call, ok := e.(*ast.CallExpr); ok {
-		if id, ok := call.Fun.(*ast.Ident); ok && id.Name != "abs64" {
-			fd, ok := c.funcs[id.Name]
-			if !ok || len(call.Args) != 2 {
-				return nil, c.errf(e, "call to unknown comparator %s", id.Name)
-			}
-			if c.depth > 3 {
-				return nil, c.errf(e, "comparator inlining too deep")
-			}
-			a0, err := c.sideOf(call.Args[0])
-			if err != nil {
-				return nil, err
-			}
-			a1, err := c.sideOf(call.Args[1])
-			if err != nil {
-				return nil, err
-			}
-			if a0.path != "" || a1.path != "" || a0.abs || a1.abs || a0.key || a1.key || a0.side == a1.side {
-				return nil, c.errf(e, "comparator call must pass the two elements themselves")
-			}
-			ps := fd.Type.Params.List
-			var names []string
-			for _, f := range ps {
-				for _, n := range f.Names {
-					names = append(names, n.Name)
-				}
-			}
-			if len(names) != 2 || fd.Body == nil {
-				return nil, c.errf(e, "comparator %s must take two parameters", id.Name)
-			}
-			an, bn := names[0], names[1]
-			if a0.side == 1 { // other(B, A): parameters swap roles
-				an, bn = bn, an
-			}
-			sub := &cmpCtx{fset: c.fset, file: c.file, locals: map[string]*sideExpr{}, funcs: c.funcs, projOf: c.projOf, depth: c.depth + 1,
-				isA: func(x ast.Expr) bool { i, ok := x.(*ast.Ident); return ok && i.Name == an },
-				isB: func(x ast.Expr) bool { i, ok := x.(*ast.Ident); return ok && i.Name == bn }}
-			vs, err := sub.block(fd.Body.List, []variant{{}}, true)
-			if err != nil {
-				return nil, err
-			}
-			if len(vs) != 1 || !vs[0].done {
-				return nil, c.errf(e, "inlined comparator %s has configuration variants or no final return", id.Name)
-			}
-			return vs[0].keys, nil
-		}
+	if keys, _, ok, err := c.inlineCall(e); ok {
+		return keys, err
 	}
 	k, _, err := c.orderKey(e)
 	if err != nil {
@@ -559,6 +604,44 @@ func (c *cmpCtx) finalReturn(e ast.Expr) ([]keyDesc, error) {
 	k.guard = "same"
 	k.goText = "return " + k.goText
 	return []keyDesc{*k}, nil
+}
+
+// structGuard handles `if X.G != Y.G { return other(X.P, Y.P) }` where G is a whole struct (NodeInfo).
+// It is the inlined key chain of `other` exactly when (a) every key of `other` is a function of G and
+// (b) the keys decide G: every field of the struct is compared untransformed — then "G differs" and
+// "some key differs" are the same condition.
+func (c *cmpCtx) structGuard(st ast.Stmt, ga *sideExpr, ret ast.Expr) ([]keyDesc, bool, error) {
+	keys, sub, ok, err := c.inlineCall(ret)
+	if !ok || err != nil {
+		return nil, ok, err
+	}
+	if ga.abs || ga.key {
+		return nil, true, c.errf(st, "unsupported guard before a comparator call")
+	}
+	g := c.prefixed(ga.path)
+	if !strings.HasPrefix(ga.path, sub) {
+		return nil, true, c.errf(st, "guard %q does not belong to the sub-element %q handed to the comparator", ga.path, sub)
+	}
+	field := ga.path[strings.LastIndexByte(ga.path, '.')+1:]
+	fields, known := c.structs[map[string]string{"Info": "NodeInfo"}[field]]
+	if !known {
+		return nil, true, c.errf(st, "guard on %q: not a struct the translator knows the fields of", ga.path)
+	}
+	have := map[string]bool{}
+	for _, k := range keys {
+		if k.path != "Sprint("+g+")" && !strings.HasPrefix(k.path, g+".") {
+			return nil, true, c.errf(st, "key %q of the inlined comparator is not a function of the guarded %q", k.path, g)
+		}
+		if k.xf == "id" {
+			have[k.path] = true
+		}
+	}
+	for _, f := range fields {
+		if !have[g+"."+f] {
+			return nil, true, c.errf(st, "guard on the whole %q, but the inlined comparator does not compare its field %s: a difference there would not be decided", g, f)
+		}
+	}
+	return keys, true, nil
 }
 
 // ---- projection tables: Go path below the element  →  Lean constructor (Model/GraphOrder.lean) ----
@@ -662,6 +745,28 @@ type sorterInfo struct {
 	keyField  string
 	keyType   string
 	keyDefs   map[string]*sideExpr
+}
+
+// structFields lists the fields of the struct types declared in the file.
+func structFields(file *ast.File) map[string][]string {
+	out := map[string][]string{}
+	for _, d := range file.Decls {
+		gd, ok := d.(*ast.GenDecl)
+		if !ok || gd.Tok != token.TYPE {
+			continue
+		}
+		for _, sp := range gd.Specs {
+			ts := sp.(*ast.TypeSpec)
+			if st, ok := ts.Type.(*ast.StructType); ok {
+				for _, f := range st.Fields.List {
+					for _, n := range f.Names {
+						out[ts.Name.Name] = append(out[ts.Name.Name], n.Name)
+					}
+				}
+			}
+		}
+	}
+	return out
 }
 
 type fileIndex struct {
@@ -1027,7 +1132,7 @@ func lessMethod(ix *fileIndex, fn *ast.FuncDecl, kind string) ([]variant, *sorte
 		b, ok := sel.X.(*ast.Ident)
 		return ok && b.Name == rn
 	}
-	c := &cmpCtx{fset: fset, file: ix.file, locals: map[string]*sideExpr{}, funcs: ix.funcs, projOf: projTable(kind),
+	c := &cmpCtx{fset: fset, file: ix.file, locals: map[string]*sideExpr{}, funcs: ix.funcs, projOf: projTable(kind), structs: structFields(ix.file),
 		isA: func(x ast.Expr) bool { return indexOf(x, si.elemField, ps[0]) },
 		isB: func(x ast.Expr) bool { return indexOf(x, si.elemField, ps[1]) }}
 	if si.keyField != "" {
@@ -1059,7 +1164,7 @@ func funcLitComparator(fset *token.FileSet, file *ast.File, funcs map[string]*as
 	if len(ps) != 2 {
 		return nil, fmt.Errorf("%s: comparator closure must take two parameters", fset.Position(fl.Pos()))
 	}
-	c := &cmpCtx{fset: fset, file: file, locals: map[string]*sideExpr{}, funcs: funcs, projOf: projTable(kind),
+	c := &cmpCtx{fset: fset, file: file, locals: map[string]*sideExpr{}, funcs: funcs, projOf: projTable(kind), structs: structFields(file),
 		isA: func(x ast.Expr) bool { i, ok := x.(*ast.Ident); return ok && i.Name == ps[0] },
 		isB: func(x ast.Expr) bool { i, ok := x.(*ast.Ident); return ok && i.Name == ps[1] }}
 	vs, err := c.block(fl.Body.List, []variant{{}}, true)
